@@ -39,4 +39,15 @@ theorem C10_total_parseGINMeta (page : Bytes) : ∃ r, parseGINMeta page = .ok r
 theorem C10_total_parseIndexFile (data : Bytes) : ∃ r, parseIndexFile data = .ok r :=
   parseIndexFile_total data
 
+/-- Page isolation, arbitrary bytes: in the page loop of ParseIndexFile the record of page `i` is parseIndexPage of that page's
+own 8192 bytes, whatever precedes (`a`) and follows (`b`) it in the file — damage in one page cannot change what is reported for
+another (the access method, decided from block 0, is the only shared input).  Before fixes/index/06 this was false: a hash page
+with pd_special = 8180 took its flag word from the first bytes of the next page. -/
+theorem C10_isolate_index (a pg b : Bytes) (t n i : Nat) (ha : a.length = i * 8192) (hp : pg.length = 8192) :
+    parsePages (a ++ pg ++ b) t (n + 1) i =
+      (do let r ← parseIndexPage pg (i % 2 ^ 32) t
+          let rest ← parsePages (a ++ pg ++ b) t n (i + 1)
+          pure (r :: rest)) :=
+  parsePages_step a pg b t n i ha hp
+
 end PgVerif.Props.C10.Index
